@@ -141,8 +141,8 @@ type MSRow struct {
 type Raw struct {
 	ID       int
 	Lines    []string
-	TickSame bool // back-tick on the same line as `raw`
-	CRLF     bool // content lines are separated by CR LF
+	TickSame bool   // back-tick on the same line as `raw`
+	CRLF     bool   // content lines are separated by CR LF
 	Pad      string // white space between the last line and the closing back-tick (not part of the content)
 }
 
@@ -191,6 +191,9 @@ type TextVal struct {
 // and the values the generator means by them.
 type Format struct {
 	Params []string // lexemes after the string, including leading commas
+	// the values the lexemes mean ("" / 0 = not given: the font config's default applies)
+	FontID                               string
+	MaxLineLength, NumLines, CursorWidth int
 }
 
 // CmdStmt is a command statement.
